@@ -200,7 +200,7 @@ def oracle(case, ans):
         _scan["flip_instants"] += int(kv["runs"])
         if kv["bad"] != "-":
             return f"abort at poll index(es) {kv['bad']} of {kv['polls']} did not give a clean, consistent answer"
-        if int(kv["maxlat_ms"]) > LAT_BOUND_MS:
+        if int(kv["maxlat_ms"]) > int(LAT_BOUND_MS * _load_factor()):
             return f"latency {kv['maxlat_ms']} ms after the flip"
         return None
     kind, fs, trace, md = fc.parse_answer(ans)
@@ -215,18 +215,12 @@ def oracle(case, ans):
             return f"product of {fs} is not n"
         if fs != sorted(fs) or any(f < 2 for f in fs):
             return "list not sorted or contains 0/1"
-    bound = LONG_LAT_BOUND_MS if case.tag.startswith("long") and case.args[1] != "ecm" else LAT_BOUND_MS
     if case.tag.startswith("long-cofactor") and md.get("late", 0) == 0:
         return "the abort request (after 1-2.5 s of a run that takes minutes) was never seen by a poll"
-    # a machine whose run queue is longer than its 16 cores stretches every work unit: scale the bound
-    try:
-        import os
-        bound = int(bound * max(1.0, os.getloadavg()[0] / 12.0))
-    except OSError:
-        pass
+    bound = _bounds(case)[0]
     if md.get("late", 0) > 0 and md.get("lat_ms", 0) > bound:
         return f"returned {md['lat_ms']} ms after the abort predicate first answered true (bound {bound} ms)"
-    bb = _blind_bound()
+    bb = _blind_bound(case)
     if md.get("blind_ms", 0) > bb:
         return (f"the abort request stayed unseen for {md['blind_ms']} ms (bound {bb} ms): no poll point inside the stage that was "
                 f"running ({md.get('after_flip', '?')})")
@@ -237,14 +231,30 @@ def corpus_case(line):
     return Case(line, k=False, tag="corpus", profiles=["release"], timeout=300)
 
 
-def _blind_bound():
-    b = BLIND_BOUND_MS
+def _load_factor():
+    """the cases are judged after they ran: take the larger of the 1- and 5-minute load averages so that the load DURING the
+    run counts; a machine whose run queue is longer than its 16 cores stretches every work unit"""
     try:
         import os
-        b = int(b * max(1.0, os.getloadavg()[0] / 12.0))
+        l = os.getloadavg()
+        return max(1.0, max(l[0], l[1]) / 12.0)
     except OSError:
-        pass
-    return b
+        return 1.0
+
+
+_BOUNDS = {}        # request line -> (latency bound, blind bound): computed ONCE per case, shared by oracle and finding_key
+
+
+def _bounds(case):
+    if case.line not in _BOUNDS:
+        f = _load_factor()
+        lat = LONG_LAT_BOUND_MS if case.tag.startswith("long") and case.args[1] != "ecm" else LAT_BOUND_MS
+        _BOUNDS[case.line] = (int(lat * f), int(BLIND_BOUND_MS * f))
+    return _BOUNDS[case.line]
+
+
+def _blind_bound(case=None):
+    return _bounds(case)[1] if case is not None else int(BLIND_BOUND_MS * _load_factor())
 
 
 def finding_key(case, ans, profile):
@@ -252,9 +262,9 @@ def finding_key(case, ans, profile):
     if case.op != "factor":
         return None
     kind, fs, trace, md = fc.parse_answer(ans)
-    if kind in ("ok", "failure") and md.get("blind_ms", 0) > _blind_bound() and md.get("after_flip") in ("pm1q", "pm1") \
+    if kind in ("ok", "failure") and md.get("blind_ms", 0) > _blind_bound(case) and md.get("after_flip") in ("pm1q", "pm1") \
             and md.get("foreign", 0) == 0 and (kind == "failure" or fc.prod(fs) == int(case.args[0])):
-        if md.get("late", 0) > 0 and md.get("lat_ms", 0) > LAT_BOUND_MS:
+        if md.get("late", 0) > 0 and md.get("lat_ms", 0) > _bounds(case)[0]:
             return None
         return BLIND_KEY
     return None
